@@ -20,7 +20,7 @@ EXPLANATION += (  # round-3 supplement
     ' R2 is decided on MIR data flow (scope starts at the parameter and is fed back from the found declaration, flag starts true and is false afterwards). R7 lexical scopes are children of the scope the expression is checked in.'
 )
 EXPLANATION += (
-    ' R8 a segment fetched from the path iterator after the first one - also the one that follows leading `super`s - reaches resolve_name only with the search-enclosing-scopes flag set to false (path rule on the MIR of resolve_module_part_of_path).'
+    ' R8 a segment fetched from the path iterator after the first one - also the one that follows leading `super`s - reaches resolve_name only with the search-enclosing-scopes flag set to false (path rule on the MIR of resolve_module_part_of_path). R9 module tree construction: the index registered in the children of a parent is the position of the own push of that child (len() read directly before that push, or len()-1 directly after it; through helper return values).'
 )
 ASSUMPTIONS = [
     "BTreeMap/HashMap lookups are exact-key lookups",
@@ -410,6 +410,164 @@ def rule_r8(F):
     return r
 
 
+FILE_T = "file_tree::SourceFile"
+
+
+def _tree_events(b):
+    """Growth events of the file vector in a body: block -> 'PUSH' (a direct push of one file) | 'OTHER' (a call that may push any
+    number of files: a crate function given the vector / the tree mutably) and the blocks of len() reads."""
+    ev, lens = {}, {}
+    for bi, t in mir.calls(b):
+        d = mir.callee_def(t) or ""
+        g = t["f"].get("gargs") or []
+        if d.startswith("std::vec::Vec") and g and g[0] == FILE_T:
+            if hir.last(d) == "push":
+                ev[bi] = "PUSH"
+            elif hir.last(d) == "len":
+                lens[bi] = t["dest"][0]
+            elif hir.last(d) in ("insert", "extend", "append", "remove", "truncate", "clear", "pop", "swap_remove", "drain", "retain"):
+                ev[bi] = "OTHER"
+        elif (mir.callee(t) or "").startswith("file_tree::"):
+            tys = [b.mir["locals"][a[1][0]]["ty"] for a in t["args"] if mir.is_place_op(a)]
+            if any(x.startswith("&mut") and (FILE_T in x or "file_tree::FileTree" in x) for x in tys):
+                ev[bi] = "OTHER"
+    return ev, lens
+
+
+def _index_kind(F, b, defs, ev, lens, preds, local, site, depth=0, summ=None):
+    """Is the usize in `local` the position of one directly pushed file?  Returns (ok, description)."""
+    if depth > 6:
+        return False, "too deep"
+    ds = defs.whole_defs(local)
+    if len(ds) != 1:
+        return False, "index with several definitions"
+    bi, _, kind, st = ds[0]
+    if kind == "assign":
+        rv = st["rv"]
+        if rv["k"] in ("use", "cast") and mir.is_place_op(rv.get("o")) and len(rv["o"][1]) == 1:
+            return _index_kind(F, b, defs, ev, lens, preds, rv["o"][1][0], site, depth + 1, summ)
+        if rv["k"] in ("bin", "checked") and rv.get("op") in ("Sub", "SubWithOverflow") and mir.is_place_op(rv["a"]) and (mir.op_const(rv["b"]) or {}).get("v") == 1:
+            src = rv["a"][1][0]
+            lb = [x for x, l in lens.items() if l == src or x in mir.back_calls(b, defs, src)]
+            lb = [x for x in lb if x in lens]
+            if not lb:
+                return False, "x - 1 of something that is not the length of the file list"
+            # the last growth event before the len() read must be a direct push on every path
+            seen, work, kinds = set(), list(preds[lb[0]]), set()
+            while work:
+                x = work.pop()
+                if x in seen:
+                    continue
+                seen.add(x)
+                if x in ev:
+                    kinds.add(ev[x])
+                    continue
+                work.extend(preds[x])
+            return (kinds == {"PUSH"}), "len() - 1 read after %s" % (sorted(kinds) or ["no push"])
+        if rv["k"] == "field" or (rv["k"] == "use" and mir.is_place_op(rv.get("o")) and len(rv["o"][1]) > 1):
+            src = rv["o"][1] if rv["k"] == "use" else None
+            if src is not None:
+                return _index_kind(F, b, defs, ev, lens, preds, src[0], site, depth + 1, summ)
+        return False, "computed index (%s)" % rv["k"]
+    if kind == "call":
+        if bi in lens:
+            # the first growth event after the len() read must be a direct push on every path
+            seen, work, kinds = set(), list(mir.succs(b.blocks[bi])), set()
+            while work:
+                x = work.pop()
+                if x in seen:
+                    continue
+                seen.add(x)
+                if x in ev:
+                    kinds.add(ev[x])
+                    continue
+                if x == site:
+                    kinds.add("no push before the index is used")
+                    continue
+                work.extend(mir.succs(b.blocks[x]))
+            return (kinds == {"PUSH"}), "len() read before %s" % sorted(kinds)
+        c = mir.callee(st) or ""
+        if c.startswith("file_tree::") and summ is not None:
+            ok, why = summ(c)
+            return ok, "result of %s: %s" % (hir.last(c), why)
+        return False, "result of %s" % hir.last(c)
+    return False, "?"
+
+
+def rule_r9(F):
+    """The module tree is built from file indices: the index stored in a parent's `children` must be the position at which that
+    child itself was pushed onto the file list (`let idx = files.len(); files.push(file); files[parent].children.push(idx)`): a
+    length read with nothing but that one push after it, or `len() - 1` read with nothing but that push before it - also when the
+    index travels through the return value of a helper.  (An index read after the child's own descendants were pushed names the
+    last descendant: the nested directory becomes a global module and its last file gets two parents.)"""
+    r = RuleResult("C13.R9", "module tree: the index registered as a child is the position at which that child's own file was pushed", floor=2)
+    bodies = [b for b in F.bodies_in(["src/file_tree.rs"]) if b.mir and "::tests::" not in b.path]
+    by = {b.path: b for b in bodies}
+    memo = {}
+
+    def summ(path):
+        if path in memo:
+            return memo[path]
+        memo[path] = (True, "recursive")
+        fb = by.get(path)
+        if fb is None:
+            memo[path] = (False, "unknown function")
+            return memo[path]
+        defs = mir.Defs(fb)
+        ev, lens = _tree_events(fb)
+        preds = mir.preds(fb)
+        oks = []
+        for d in defs.defs.get(0, []):
+            if d[2] == "assign":
+                rv = d[3]["rv"]
+                if rv["k"] in ("use", "cast") and mir.is_place_op(rv.get("o")):
+                    oks.append(_index_kind(F, fb, defs, ev, lens, preds, rv["o"][1][0], d[0], 0, summ))
+                elif rv["k"] in ("bin", "checked"):
+                    # _0 = x - 1 directly
+                    tmp_defs = mir.Defs(fb)
+                    oks.append(_index_kind(F, fb, tmp_defs, ev, lens, preds, 0, d[0], 0, summ) if len(defs.whole_defs(0)) == 1 else (False, "several returns"))
+                else:
+                    oks.append((False, "computed"))
+            elif d[2] == "call":
+                oks.append(_index_kind(F, fb, defs, ev, lens, preds, 0, d[0], 0, summ) if len(defs.whole_defs(0)) == 1 else (False, "several returns"))
+        if not oks:
+            memo[path] = (False, "no returned index")
+        else:
+            bad = [w for ok, w in oks if not ok]
+            memo[path] = (not bad, "; ".join(bad) if bad else "; ".join(w for _, w in oks))
+        return memo[path]
+    n = 0
+    for b in bodies:
+        defs = None
+        for bi, t in mir.calls(b):
+            d = mir.callee_def(t) or ""
+            g = t["f"].get("gargs") or []
+            if not (d.startswith("std::vec::Vec") and hir.last(d) == "push" and g and g[0] == "usize" and len(t["args"]) == 2):
+                continue
+            defs = defs or mir.Defs(b)
+            from .c08 import deps
+            if not (mir.is_place_op(t["args"][0]) and any("children" in x for x in deps(b, defs, t["args"][0][1][0]))):
+                # also accept the origin path
+                if not (mir.is_place_op(t["args"][0]) and "children" in mir.origin_key(b, defs, t["args"][0][1])):
+                    continue
+            n += 1
+            ev, lens = _tree_events(b)
+            preds = mir.preds(b)
+            a = t["args"][1]
+            if not mir.is_place_op(a):
+                ok, why = False, "constant index"
+            else:
+                ok, why = _index_kind(F, b, defs, ev, lens, preds, a[1][0], bi, 0, summ)
+            r.inst("%s children.push line %s" % (hir.last(b.path), t.get("line")), {"fn": b.path, "line": t.get("line"), "index": why, "ok": ok})
+            if not ok:
+                r.bad(b.path, "child index is not the position of the child's own push", relfile(b.file), t.get("line"),
+                      "the index pushed into `children` is %s, not the position at which the child's own file was pushed: a directory module with children is registered under the index of "
+                      "its last descendant (the directory itself gets no parent and becomes a global module; that descendant gets two parents)" % why)
+    if n < 2:
+        r.missing("registrations of a child index in src/file_tree.rs (found %d)" % n)
+    return r
+
+
 def rules(ctx):
     F = ctx["F"]
-    return [rule_r1(F), rule_r2(F), rule_r3(F), rule_r4(F), rule_r5(F), rule_r6(F), rule_r7(F), rule_r8(F)]
+    return [rule_r1(F), rule_r2(F), rule_r3(F), rule_r4(F), rule_r5(F), rule_r6(F), rule_r7(F), rule_r8(F), rule_r9(F)]
